@@ -125,24 +125,32 @@ func runC11(c *Ctx) {
 	// R3 close order (also in C05.R1): writer.close ≺ CloseDictionaryCompression ≺ Transport.Close
 	closeFn := c.Fn("C11.R3", "centrifuge", "(*Client).close")
 	if closeFn != nil {
+		// the three calls sit in close() itself or together in a teardown helper it calls
 		var wc, dc, tc ssa.Instruction
-		EachInstr(closeFn, func(in ssa.Instruction) {
-			ci := asCall(in)
-			if ci == nil {
-				return
+		for _, g := range w.Deep(closeFn, 1).Funcs {
+			var gw, gd, gt ssa.Instruction
+			EachInstr(g, func(in ssa.Instruction) {
+				ci := asCall(in)
+				if ci == nil {
+					return
+				}
+				switch {
+				case calleeName(ci.Common()) == "writer.close":
+					gw = in
+				case closeDC(ci):
+					gd = in
+				case calleeName(ci.Common()) == "Transport.Close":
+					gt = in
+				}
+			})
+			if gw != nil && gd != nil && gt != nil {
+				wc, dc, tc = gw, gd, gt
+				break
 			}
-			switch {
-			case calleeName(ci.Common()) == "writer.close":
-				wc = in
-			case closeDC(ci):
-				dc = in
-			case calleeName(ci.Common()) == "Transport.Close":
-				tc = in
-			}
-		})
+		}
 		if c.Anchor("C11.R3", "writer.close / CloseDictionaryCompression / Transport.Close in Client.close", wc != nil && dc != nil && tc != nil) {
-			c.Check("C11.R3", dc, "codec closed after the writer closed and flushed", Reaches(wc, dc) && !Reaches(dc, wc), "closing the codec while the writer can still encode overlaps Close with Encode")
-			c.Check("C11.R3", tc, "codec closed before the transport goes away", Reaches(dc, tc) && !Reaches(tc, dc), "the codec's last call must happen while the transport still exists")
+			c.CheckAt("C11.R3", "(*centrifuge.Client).close: codec closed after the writer closed and flushed", w.InstrPos(dc), Reaches(wc, dc) && !Reaches(dc, wc), "closing the codec while the writer can still encode overlaps Close with Encode")
+			c.CheckAt("C11.R3", "(*centrifuge.Client).close: codec closed before the transport goes away", w.InstrPos(tc), Reaches(dc, tc) && !Reaches(tc, dc), "the codec's last call must happen while the transport still exists")
 		}
 	}
 	// R1 shared: connect write precedes finalize (C10.R2 logic, re-evaluated here)
